@@ -230,6 +230,8 @@ def predicate(op, f, dim=None, violation=None):
         return "scalar rmax below a Tucker rank of the input"
     if f.get("tiny"):
         return "0 < norm(t) < 1e-12 (below the absolute zero threshold 1e-13 of truncated_svd)"
+    if violation == "error > eps" and f.get("eigcap"):
+        return "algorithm='eig' with rmax on a numerically rank-deficient unfolding (negative Gram eigenvalues are replaced by 1e-8)"
     if op in ("round_tt", "round") and f.get("lastU"):
         return "last mode has a Tucker factor"
     if op in ("round_tucker", "round") and f.get("cpb"):
@@ -362,6 +364,15 @@ def run_case(ctx, case):
         f = features(t, x)
         rm = case["rmax"]
         rk = "none" if rm is None else rm["kind"]
+        if alg == "eig" and rm is not None and frob(x) > 0:
+            # the Gram path replaces negative (round-off) eigenvalues by 1e-8, i.e. a spurious singular value 1e-4 in ABSOLUTE terms; on a
+            # numerically rank-deficient matrix it can outrank genuine small singular values, and a rank cap then keeps the spurious one
+            # (the recorded C05 eig finding, seen through round_* with rmax)
+            def deficient(M, width):
+                sv = svals(M)
+                return int(np.sum(sv > 1e-12 * sv[0])) < min(min(M.shape), width) if len(sv) and sv[0] > 0 else False
+            f["eigcap"] = any(deficient(M, w) for M, w in zip(mode_unfoldings(x), t.tranks())) or \
+                any(deficient(M, w) for M, w in zip(tt_unfoldings(x), list(t.ranks())[1:-1]))
         ctx.case(("round*", t.sig(), case["variant"], alg, rk, int(math.floor(math.log10(eps))), repr(case["dim"])), t.nontrivial(),
                  {"ops": OPS, "t": t.describe(), "variant": case["variant"], "eps": eps, "algorithm": alg, "rmax": rm, "dim": case["dim"]})
         ctx.count("variant:" + case["variant"]); ctx.count("alg:" + alg); ctx.count("rmax:" + rk); ctx.count("tiny_eps" if tiny else "eps")
